@@ -2,17 +2,22 @@
 
 use crate::report::RunOut;
 use crate::seq;
+use crate::twin;
 use crate::world::{Backend, Entry};
 use serde::{Deserialize, Serialize};
 
 #[derive(Clone, Debug, Serialize, Deserialize)]
 pub enum Plan {
     Seq(seq::SeqPlan),
+    Twin(twin::TwinPlan),
+    Iso(twin::IsoPlan),
 }
 
 #[derive(Clone, Debug, Serialize, Deserialize, PartialEq)]
 pub enum JobKind {
     Seq { backend: Backend, entry: Entry, focus: seq::Focus },
+    Twin { mode: twin::TwinMode },
+    Iso { backend: Backend, entry: Entry },
 }
 
 #[derive(Clone, Debug)]
@@ -26,30 +31,40 @@ pub struct Job {
 pub fn gen(kind: &JobKind, seed: u64, thorough: bool) -> Plan {
     match kind {
         JobKind::Seq { backend, entry, focus } => Plan::Seq(seq::gen_plan(seed, *backend, *entry, *focus, thorough)),
+        JobKind::Twin { mode } => Plan::Twin(twin::gen_plan(seed, *mode, thorough)),
+        JobKind::Iso { backend, entry } => Plan::Iso(twin::gen_iso(seed, *backend, *entry, thorough)),
     }
 }
 
 pub fn exec(plan: &Plan) -> RunOut {
     match plan {
         Plan::Seq(p) => seq::exec(p),
+        Plan::Twin(p) => twin::exec(p),
+        Plan::Iso(p) => twin::exec_iso(p),
     }
 }
 
 pub fn scenario_name(plan: &Plan) -> &'static str {
     match plan {
         Plan::Seq(_) => "seq",
+        Plan::Twin(_) => "twin",
+        Plan::Iso(_) => "iso",
     }
 }
 
 pub fn size(plan: &Plan) -> usize {
     match plan {
         Plan::Seq(p) => p.ops.len(),
+        Plan::Twin(p) => p.ops.len(),
+        Plan::Iso(p) => p.ops.len(),
     }
 }
 
 fn candidates(plan: &Plan) -> Vec<Plan> {
     match plan {
         Plan::Seq(p) => seq::shrink(p).into_iter().map(Plan::Seq).collect(),
+        Plan::Twin(p) => twin::shrink(p).into_iter().map(Plan::Twin).collect(),
+        Plan::Iso(p) => twin::shrink_iso(p).into_iter().map(Plan::Iso).collect(),
     }
 }
 
